@@ -1146,6 +1146,28 @@ type vTreeReader struct {
 	// forced, when non-nil, replays exactly these bytes (determinism check)
 	forced []byte
 	got    []byte
+	// ladder mode (width ladder): byte positions < full range over 0..255, positions < prefix over
+	// vA6, later positions come from the fixed tail vTailByte
+	ladder       bool
+	full, prefix int
+}
+
+// vA6 is the explicit byte alphabet of the width ladder: both ends and the middle of a byte.
+var vA6 = []byte{0x00, 0x01, 0x7f, 0x80, 0xfe, 0xff}
+
+// vTailByte is the fixed continuation after the enumerated prefix: first the prefix once more (a
+// forced duplicate of whatever the prefix produced), then byte pairs (p, p>>2) for p = 0,1,2,...,
+// which walk through distinct coordinates for every width.
+func vTailByte(t int, prefix []byte) byte {
+	if t < len(prefix) {
+		return prefix[t]
+	}
+	j := t - len(prefix)
+	p := j / 2
+	if j%2 == 0 {
+		return byte(p)
+	}
+	return byte(p >> 2)
 }
 
 func (r *vTreeReader) Read(p []byte) (int, error) {
@@ -1154,9 +1176,18 @@ func (r *vTreeReader) Read(p []byte) (int, error) {
 			panic(vBudget{})
 		}
 		var b byte
-		if r.forced != nil {
+		switch {
+		case r.forced != nil && r.n < len(r.forced):
 			b = r.forced[r.n]
-		} else {
+		case r.ladder && r.n >= r.prefix:
+			b = vTailByte(r.n-r.prefix, r.got[:r.prefix])
+		case r.ladder && r.n >= r.full:
+			b = vA6[r.e.Choose(len(vA6), "a6")]
+		case r.ladder:
+			b = byte(r.e.Choose(256, "byte"))
+		case r.forced != nil:
+			panic(vBudget{})
+		default:
 			b = byte(r.e.Choose(r.alph, "byte"))
 		}
 		r.got = append(r.got, b)
@@ -1306,6 +1337,176 @@ func vDrawTree(rep *vx.Report, w, k, alph, l int, deadline time.Time) drawStats 
 	return st
 }
 
+// ---- width ladder: the draw on every extended width up to 1024
+
+const (
+	vLadderPrefix = 4    // enumerated byte positions (one coordinate needs 2 bytes up to width 256, 4 above)
+	vLadderBudget = 4096 // bytes a single draw may consume before it is counted as truncated
+)
+
+type ladderStats struct {
+	W, K        int
+	FullBytes   int // leading positions enumerated over all 256 values (the rest of the prefix over vA6)
+	Executions  int64
+	Truncated   int64
+	MinBytes    int
+	MaxBytes    int
+	RowsReached int
+	ColsReached int
+	RowMax      int
+	ColMax      int
+	Complete    bool
+	rows, cols  []bool
+}
+
+// vDrawLadder enumerates every reader prefix (positions < full over 0..255, positions < 4 over vA6,
+// only as far as the draw actually reads) followed by the fixed tail, and checks range, count and
+// distinctness of every drawn set; it returns which row and column values were reached.
+func vDrawLadder(rep *vx.Report, w, k, full int, deadline time.Time) ladderStats {
+	area := w * w
+	need := min(k, area)
+	st := ladderStats{W: w, K: k, FullBytes: full, MinBytes: -1, rows: make([]bool, w), cols: make([]bool, w)}
+	viol := func(sig, what string, bytes []byte) {
+		rep.Violation(sig, what, map[string]any{"part": "ladder-case", "w": w, "k": k, "reader_prefix": fmt.Sprint(bytes)})
+	}
+	body := func(e *vx.Exec) (string, error) {
+		rd := &vTreeReader{e: e, l: vLadderBudget, ladder: true, full: full, prefix: vLadderPrefix}
+		res, trunc, pan := vDraw(rd, w, k)
+		pre := rd.got[:min(len(rd.got), vLadderPrefix)]
+		if pan != nil {
+			viol("C03/draw/panic", fmt.Sprintf("NewSamplingResult(%d,%d) panics: %v", w, k, pan), pre)
+			return "panic", nil
+		}
+		if trunc {
+			st.Truncated++
+			return "truncated", nil
+		}
+		if st.MinBytes < 0 || rd.n < st.MinBytes {
+			st.MinBytes = rd.n
+		}
+		st.MaxBytes = max(st.MaxBytes, rd.n)
+		set := vSetOf(res.Remaining)
+		if len(res.Remaining) != need || len(set) != need {
+			sig := "C03/draw/count"
+			if len(set) != len(res.Remaining) {
+				sig = "C03/draw/duplicate"
+			}
+			viol(sig, fmt.Sprintf("draw for width %d, k=%d gives %d coordinates (%d distinct), need %d", w, k, len(res.Remaining), len(set), need), pre)
+		}
+		for c := range set {
+			if c.Row < 0 || c.Col < 0 || c.Row >= w || c.Col >= w {
+				viol("C03/draw/out-of-square", fmt.Sprintf("coordinate %d.%d outside width %d", c.Row, c.Col, w), pre)
+				continue
+			}
+			st.rows[c.Row] = true
+			st.cols[c.Col] = true
+		}
+		// a function of the reader bytes only
+		rd2 := &vTreeReader{l: vLadderBudget, ladder: true, full: full, prefix: vLadderPrefix, forced: append([]byte(nil), pre...)}
+		if len(pre) < vLadderPrefix {
+			rd2.ladder, rd2.l = false, len(pre)
+		}
+		res2, trunc2, pan2 := vDraw(rd2, w, k)
+		if trunc2 || pan2 != nil || vStr(res2.Remaining) != vStr(res.Remaining) || rd2.n != rd.n {
+			viol("C03/draw/not-a-function-of-reader-bytes", fmt.Sprintf("same reader bytes gave [%s] then [%v] (bytes used %d then %d)", vStr(res.Remaining), res2, rd.n, rd2.n), pre)
+		}
+		return "ok", nil
+	}
+	ds := vx.DFS(vx.DFSOpts{Bound: 1 << 30, Deadline: deadline, Workers: 1}, body, nil)
+	st.Executions = ds.Executions
+	st.Complete = ds.Complete
+	for v := 0; v < w; v++ {
+		if st.rows[v] {
+			st.RowsReached++
+			st.RowMax = v
+		}
+		if st.cols[v] {
+			st.ColsReached++
+			st.ColMax = v
+		}
+	}
+	if st.Complete && st.Executions > 0 && st.Truncated == st.Executions {
+		rep.Infra(fmt.Sprintf("width ladder w=%d k=%d: every execution exceeded the byte budget %d", w, k, vLadderBudget))
+	}
+	return st
+}
+
+// vLadderVerdict: the unchanged draw is uniform over [0,w)^2, so over the enumerated prefixes both
+// axes must reach 0, w-1 and every quarter of [0,w).
+func vLadderVerdict(rep *vx.Report, w int, runs []ladderStats) {
+	for axis, name := range []string{"row", "column"} {
+		reached := make([]bool, w)
+		for _, st := range runs {
+			src := st.rows
+			if axis == 1 {
+				src = st.cols
+			}
+			for v, ok := range src {
+				if ok {
+					reached[v] = true
+				}
+			}
+		}
+		quarters := map[int]bool{}
+		maxV, n := -1, 0
+		for v, ok := range reached {
+			if ok {
+				quarters[v*4/w] = true
+				maxV = v
+				n++
+			}
+		}
+		var missing []string
+		for v := 0; v < w; v++ {
+			if q := v * 4 / w; !quarters[q] {
+				quarters[q] = true
+				missing = append(missing, fmt.Sprintf("[%d,%d)", (q*w+3)/4, ((q+1)*w+3)/4))
+			}
+		}
+		if !reached[0] {
+			missing = append(missing, "0")
+		}
+		if !reached[w-1] {
+			missing = append(missing, fmt.Sprintf("%d", w-1))
+		}
+		if len(missing) == 0 {
+			continue
+		}
+		var modes []string
+		for _, st := range runs {
+			modes = append(modes, fmt.Sprintf("k=%d/full=%d/execs=%d/bytes=%d..%d", st.K, st.FullBytes, st.Executions, st.MinBytes, st.MaxBytes))
+		}
+		rep.Violation("C03/draw/unreachable-quadrant",
+			fmt.Sprintf("width %d: over every enumerated reader prefix (%s) the drawn %s indices never reach %s; %d of %d values reached, largest %d: part of the extended square can never be sampled",
+				w, strings.Join(modes, " "), name, strings.Join(missing, ", "), n, w, maxV),
+			map[string]any{"part": "ladder", "w": w})
+	}
+}
+
+// vLadderWidth runs the ladder cases of one width for the tier.
+func vLadderWidth(rep *vx.Report, w int, quick bool, deadline time.Time) (runs []ladderStats, complete bool) {
+	complete = true
+	type lc struct{ k, full int }
+	cases := []lc{{1, 0}, {16, 0}}
+	// the six-value alphabet alone does not reach every quarter of a width between 8 and 128
+	// (0x7f&(w-1) = w-1, 0x80&(w-1) = 0): there the first two bytes range over all 65,536 pairs.
+	// Above 256 one coordinate takes four bytes; the full pairs are affordable in the thorough tier.
+	if (w >= 8 && w <= 256) || (!quick && w > 256) {
+		cases = append(cases, lc{1, 2})
+	}
+	for _, c := range cases {
+		st := vDrawLadder(rep, w, c.k, c.full, deadline)
+		if !st.Complete {
+			complete = false
+		}
+		runs = append(runs, st)
+	}
+	if complete {
+		vLadderVerdict(rep, w, runs)
+	}
+	return runs, complete
+}
+
 // vDrawBytes: all 65,536 two-byte strings over the full byte alphabet for k=1.
 func vDrawBytes(rep *vx.Report, w int) drawStats { return vDrawTree(rep, w, 1, 256, 2, time.Time{}) }
 
@@ -1319,7 +1520,8 @@ func TestVerifC03(t *testing.T) {
 	writeBatchSize = 16
 	rep := vx.NewReport("C03", "model_checking")
 	rep.Rule = "part A: every byte string (per-byte alphabet {0..w-1}; full 0..255 for k=1) of bounded length that NewSamplingResult can consume from " +
-		"crypto/rand.Reader, one execution per string, distinct = distinct resulting coordinate sets; part B: explicit-state BFS over event histories of the real " +
+		"crypto/rand.Reader, one execution per string, distinct = distinct resulting coordinate sets; width ladder w = 2..1024, k in {1,16}: every reader prefix of 4 bytes " +
+		"over {00,01,7f,80,fe,ff} (first two bytes over all 65,536 pairs for widths 8..256, in the thorough tier also 512 and 1024) followed by a fixed tail; part B: explicit-state BFS over event histories of the real " +
 		"light.ShareAvailability, frontier run until empty within the call/restart bounds (events: call(height)[+deadline], getter answer = every subset of the requested coordinates served | nil slice, each with " +
 		"no error / error / error wrapping context.Canceled / the real ctx error, cancel(session holder | queued call), clock advance, restart = Close + fresh instance over the same " +
 		"datastore, crash = fresh instance without Close); a state is distinct and non-trivial when its canonical fingerprint (per block: first drawn set, " +
@@ -1382,6 +1584,21 @@ func TestVerifC03(t *testing.T) {
 		}
 		drawRuns = append(drawRuns, st)
 	}
+	// width ladder: every extended width up to 1024 (share.MaxSquareSize = 512 shares per ODS axis)
+	var ladderRuns []ladderStats
+	var lExec int64
+	for w := 2; w <= 1024; w *= 2 {
+		lr, ok := vLadderWidth(rep, w, quick, deadline)
+		if !ok {
+			exhaustive = false
+		}
+		for _, st := range lr {
+			lExec += st.Executions
+		}
+		ladderRuns = append(ladderRuns, lr...)
+	}
+	rep.Set("draw_width_ladder", ladderRuns)
+	rep.Count(lExec*2, int64(len(ladderRuns)), 0, 0)
 	// k = area = 16 on the 4x4 square cannot be enumerated (16! orders): a fixed list of orders
 	fixed := 0
 	{
@@ -1597,6 +1814,16 @@ func replayC03(t *testing.T, rep *vx.Report, path string) {
 	}
 	if err := json.Unmarshal(b, &doc); err != nil {
 		t.Fatalf("replay: %v", err)
+	}
+	if doc.Replay.Part == "ladder" || doc.Replay.Part == "ladder-case" {
+		runs, _ := vLadderWidth(rep, doc.Replay.W, rep.Tier == "quick", time.Time{})
+		for _, st := range runs {
+			fmt.Printf("REPLAY-RESULT ladder %+v\n", st)
+			rep.Count(st.Executions, 1, 0, 0)
+		}
+		rep.SetExhaustive(false)
+		rep.Finish()
+		return
 	}
 	if doc.Replay.Part == "draw" {
 		if doc.Replay.Bytes != "" {
